@@ -93,6 +93,14 @@ impl Config {
 	}
 
 	pub fn get_hook(&self, name: &str) -> Result<Vec<hooks::Hook>, Error> {
+		self.get_hook_rec(name, &mut vec![])
+	}
+
+	fn get_hook_rec(
+		&self,
+		name: &str,
+		parents: &mut Vec<String>,
+	) -> Result<Vec<hooks::Hook>, Error> {
 		for hook in self.hook.iter() {
 			if name == hook.name {
 				let h = hooks::Hook {
@@ -112,11 +120,16 @@ impl Config {
 		}
 		for grp in self.group.iter() {
 			if name == grp.name {
+				if parents.iter().any(|p| p == name) {
+					return Err(format!("{name}: the group includes itself").into());
+				}
+				parents.push(name.to_string());
 				let mut ret = vec![];
 				for hook_name in grp.hooks.iter() {
-					let mut h = self.get_hook(hook_name)?;
+					let mut h = self.get_hook_rec(hook_name, parents)?;
 					ret.append(&mut h);
 				}
+				parents.pop();
 				return Ok(ret);
 			}
 		}
